@@ -1,6 +1,28 @@
 """C04 - simplification preserves values (structural part)."""
 from .. import ast as A
 from .. import simplify as S
+from .. import terms as T
+from .. import vmloops as V
+
+
+def r2c_tracing_operand_order(rule, root=None):
+    """in the interpreter tracing loops the choice is taken from
+    `<first operand>.<op>_choice(<second operand>)`, so that Left/Right mean what simplify assumes"""
+    from .C20 import _Null
+
+    for label in ("interval", "point"):
+        info = []
+        V.check_loop(_Null(), label, root, want_choice_info=info)
+        for variant, subs, arm, inf, fn in info:
+            base, form = T.split_variant(variant)
+            if base not in T.CHOICE_BASES or form not in ("RegReg", "RegImm", "ImmReg"):
+                continue
+            val = inf.get("value")
+            exp = V.expected_value(variant) or []
+            if val is None or val not in exp:
+                rule.bad("%s|%s" % (label, variant), "%s arm %s takes its value/choice from `%s`; Left must denote the first operand, i.e. `%s`" % (label, variant, T.show(val) if val else "?", T.show(exp[0]) if exp else "?"), A.where(fn, arm))
+            else:
+                rule.ok("%s:%s = %s" % (label, variant, T.show(val)), file=V.VM, line=arm["ln"])
 
 
 def run(ctx):
@@ -8,6 +30,8 @@ def run(ctx):
     ctx.guarded(r, lambda rule: S.r1_choice_consumption(rule))
     r = ctx.rule("R2", "Left keeps the first operand, Right the second, Both keeps the op", 8)
     ctx.guarded(r, S.r2_left_right)
+    r = ctx.rule("R2c", "tracing loops take each choice from first.op_choice(second) (Left = first operand)", 16)
+    ctx.guarded(r, r2c_tracing_operand_order)
     r = ctx.rule("R2b", "every surviving op renames its output and all register operands", 44)
     ctx.guarded(r, S.r_renaming)
     r = ctx.rule("R3", "order parity: evaluators walk the reversed tape, simplify the choices backwards", 4)
